@@ -151,7 +151,146 @@ def _models():
             return SX.Obj(adt="()")
         return NotImplemented
 
+    # ---- slice views and iterator adaptors (a body reshaped with chunks / split_at / step_by / zip is still followed)
+    def _base(r):
+        while isinstance(r, SX.Ref) and not r.projs and isinstance(r.cell.v, SX.Ref):
+            r = r.cell.v
+        return r
+
+    def _view(ex, r, start, length):
+        r = _base(r)
+        arr = ex.deref(r)
+        if not (isinstance(r, SX.Ref) and isinstance(arr, SX.Obj) and arr.adt == "array") or start < 0 or length < 0 or start + length > len(arr.fields):
+            return None
+        return SX.Ref(r.cell, tuple(r.projs) + (("sl", start, length),))
+
+    def _elems(ex, v):
+        """element references of a pyiter / of a reference to an array or view"""
+        if isinstance(v, SX.Obj) and v.adt == "pyiter":
+            return v.fields["items"]
+        d = ex.deref(v)
+        if isinstance(d, SX.Obj) and d.adt == "pyiter":
+            return d.fields["items"]
+        r = _base(v)
+        if isinstance(r, SX.Ref) and isinstance(d, SX.Obj) and d.adt == "array":
+            return [SX.Ref(r.cell, tuple(r.projs) + (("ci", i, False),)) for i in range(len(d.fields))]
+        return None
+
+    def _pyiter(items):
+        return SX.Obj(adt="pyiter", fields={"items": list(items)})
+
+    def _chunks(exact):
+        def h(ex, st, fr, t, a):
+            if len(a) != 2:
+                return NotImplemented
+            size, arr = ex.deref(a[1]), ex.deref(a[0])
+            if not (_isint(size) and size > 0 and isinstance(arr, SX.Obj) and arr.adt == "array"):
+                return NotImplemented
+            n = len(arr.fields)
+            out = []
+            for k in range(0, n, size):
+                ln = min(size, n - k)
+                if ln < size and exact:
+                    break
+                v = _view(ex, a[0], k, ln)
+                if v is None:
+                    return NotImplemented
+                out.append(v)
+            return _pyiter(out)
+        return h
+
+    def _split_at(ex, st, fr, t, a):
+        if len(a) != 2:
+            return NotImplemented
+        m, arr = ex.deref(a[1]), ex.deref(a[0])
+        if not (_isint(m) and isinstance(arr, SX.Obj) and arr.adt == "array" and m <= len(arr.fields)):
+            return NotImplemented
+        lo, hi = _view(ex, a[0], 0, m), _view(ex, a[0], m, len(arr.fields) - m)
+        if lo is None or hi is None:
+            return NotImplemented
+        return SX.Obj(adt="tuple", fields={0: lo, 1: hi})
+
+    def _index_range(ex, st, fr, t, a):
+        if len(a) != 2:
+            return NotImplemented
+        rg, arr = ex.deref(a[1]), ex.deref(a[0])
+        if not (isinstance(rg, SX.Obj) and isinstance(arr, SX.Obj) and arr.adt == "array" and isinstance(rg.adt, str) and "ops::range::Range" in rg.adt):
+            return NotImplemented
+        n = len(arr.fields)
+        kind = rg.adt.rsplit("::", 1)[-1]
+        f0, f1 = rg.fields.get(0), rg.fields.get(1)
+        if kind == "RangeFrom" and _isint(f0):
+            s0, e0 = f0, n
+        elif kind == "Range" and _isint(f0) and _isint(f1):
+            s0, e0 = f0, f1
+        elif kind == "RangeTo" and _isint(f0):
+            s0, e0 = 0, f0
+        elif kind == "RangeFull":
+            s0, e0 = 0, n
+        else:
+            return NotImplemented
+        v = _view(ex, a[0], s0, e0 - s0) if s0 <= e0 <= n else None
+        return v if v is not None else NotImplemented
+
+    def _iter(ex, st, fr, t, a):
+        it = _elems(ex, a[0]) if len(a) == 1 else None
+        return _pyiter(it) if it is not None else NotImplemented
+
+    def _next(ex, st, fr, t, a):
+        d = ex.deref(a[0])
+        if isinstance(d, SX.Obj) and d.adt == "pyiter":
+            items = d.fields["items"]
+            return SX.some(items.pop(0)) if items else SX.none()
+        return NotImplemented
+
+    def _adapt(fun, nargs):
+        def h(ex, st, fr, t, a):
+            if len(a) != nargs:
+                return NotImplemented
+            it = _elems(ex, a[0])
+            k = ex.deref(a[1]) if nargs == 2 else None
+            if it is None or (nargs == 2 and not _isint(k)):
+                return NotImplemented
+            return _pyiter(fun(it, k))
+        return h
+
+    def _zip(ex, st, fr, t, a):
+        if len(a) != 2:
+            return NotImplemented
+        x, y = _elems(ex, a[0]), _elems(ex, a[1])
+        if x is None or y is None:
+            return NotImplemented
+        return _pyiter([SX.Obj(adt="tuple", fields={0: p_, 1: q_}) for p_, q_ in zip(x, y)])
+
+    def _into_iter(ex, st, fr, t, a):
+        d = ex.deref(a[0]) if len(a) == 1 else None
+        if isinstance(d, SX.Obj) and d.adt == "pyiter":
+            return a[0] if not isinstance(a[0], SX.Ref) else d
+        if isinstance(d, SX.Obj) and d.adt == "array" and isinstance(a[0], SX.Ref):
+            return _pyiter(_elems(ex, a[0]))
+        return NotImplemented
+
+    def _deref(ex, st, fr, t, a):
+        d = ex.deref(a[0]) if len(a) == 1 else None
+        if isinstance(d, SX.Obj) and d.adt == "array" and isinstance(a[0], SX.Ref):
+            return _base(a[0])      # Vec<T> -> [T]: the same storage
+        return NotImplemented
+
     def extra(md):
+        md.on(SX.by(None, ("deref", "deref_mut", "as_mut_slice", "as_slice", "as_mut", "as_ref", "borrow_mut", "borrow")), _deref)
+        md.on(SX.by(None, ("chunks_exact_mut", "chunks_exact")), _chunks(True))
+        md.on(SX.by(None, ("chunks_mut", "chunks")), _chunks(False))
+        md.on(SX.by(None, ("split_at_mut", "split_at")), _split_at)
+        md.on(SX.by(None, ("index", "index_mut")), _index_range)
+        md.on(SX.by(None, ("iter", "iter_mut")), _iter)
+        md.on(SX.by(None, "next"), _next)
+        md.on(SX.by(None, "into_iter"), _into_iter)
+        md.on(SX.by(None, "zip"), _zip)
+        md.on(SX.by(None, "step_by"), _adapt(lambda it, k: it[::k] if k > 0 else [], 2))
+        md.on(SX.by(None, "take"), _adapt(lambda it, k: it[:k], 2))
+        md.on(SX.by(None, "skip"), _adapt(lambda it, k: it[k:], 2))
+        md.on(SX.by(None, "rev"), _adapt(lambda it, k: it[::-1], 1))
+        md.on(SX.by(None, "enumerate"), _adapt(lambda it, k: [SX.Obj(adt="tuple", fields={0: i, 1: x}) for i, x in enumerate(it)], 1))
         md.on(SX.by(None, "len"), _len)
         md.on(SX.by("core::convert::From", "from"), _ident)
         md.on(SX.by("core::convert::TryFrom", "try_from"), _try_from)
